@@ -3,8 +3,10 @@ package main
 import (
 	"fmt"
 	"go/ast"
+	"go/constant"
 	"go/token"
 	"go/types"
+	"math/big"
 	"sort"
 	"strings"
 
@@ -1442,5 +1444,214 @@ func (c *Ctx) ruleStageMaps() {
 	}
 	if n == 0 {
 		c.ob("R-STAGEMAPS", "branches", token.NoPos, false, "no stage-selected branch touching a vote container found (anchor changed)")
+	}
+}
+
+// loopsOf lists the natural loops of f as block sets (one per back edge).
+func loopsOf(f *ssa.Function) []map[*ssa.BasicBlock]bool {
+	var out []map[*ssa.BasicBlock]bool
+	for _, d := range f.Blocks {
+		for _, p := range d.Preds {
+			if !d.Dominates(p) {
+				continue
+			}
+			body := map[*ssa.BasicBlock]bool{d: true}
+			stack := []*ssa.BasicBlock{p}
+			for len(stack) > 0 {
+				x := stack[len(stack)-1]
+				stack = stack[:len(stack)-1]
+				if body[x] {
+					continue
+				}
+				body[x] = true
+				stack = append(stack, x.Preds...)
+			}
+			out = append(out, body)
+		}
+	}
+	return out
+}
+
+// R-BIGSIGN: an unsigned machine word never reaches big.NewInt through a conversion to int64 that can wrap.
+func (c *Ctx) ruleBigSign(rule, dir string) {
+	sp := c.ssaPkg(dir)
+	if sp == nil {
+		return
+	}
+	c.doc(rule, dir+": every conversion to a signed integer type that feeds big.NewInt (or big.Int.SetInt64) has an operand whose range — by its type or by interval analysis — fits the signed type: int64(uint64 value) turns 2^63..2^64-1 into negative numbers, so a compact big integer of that size would decode to a different value")
+	n := 0
+	for _, f := range allFuncs(c, sp) {
+		eachInstr(f, func(_ *ssa.BasicBlock, _ int, in ssa.Instruction) {
+			call, ok := in.(*ssa.Call)
+			if !ok {
+				return
+			}
+			nm := calleeName(&call.Call)
+			var arg ssa.Value
+			switch nm {
+			case "math/big.NewInt":
+				arg = call.Call.Args[0]
+			case "(*math/big.Int).SetInt64":
+				arg = call.Call.Args[1]
+			default:
+				return
+			}
+			for _, v := range phiInputs(arg) {
+				cv, ok := v.(*ssa.Convert)
+				if !ok {
+					continue
+				}
+				dst, okD := typeRange(cv.Type())
+				if !okD {
+					continue
+				}
+				n++
+				src := newIvlEval().of(cv.X)
+				c.ob(rule, fmt.Sprintf("%s:%s<-convert#%d", relName(f.String()), strings.TrimPrefix(nm, "math/"), n), cv.Pos(), src.within(dst),
+					fmt.Sprintf("%s converts a value of range [%s, %s] (%s) to %s before handing it to %s: values above the signed maximum become negative", shortFn(f), src.lo, src.hi, cv.X.Type(), cv.Type(), nm))
+			}
+		})
+	}
+	c.ob(rule, "scan", token.NoPos, true, fmt.Sprintf("%d signed conversions feeding big.NewInt/SetInt64 examined", n))
+}
+
+// R-FRESHELEM: each element of a decoded sequence is decoded into its own fresh destination.
+func (c *Ctx) ruleFreshElem(rule, dir string) {
+	sp := c.ssaPkg(dir)
+	if sp == nil {
+		return
+	}
+	c.doc(rule, dir+": inside a decoding loop the destination handed to decodeState.unmarshal is created in that loop iteration (reflect.New(...).Elem(), or the i-th element of the result) — a destination allocated once outside the loop still holds the previous element: optional fields left untouched by a None inherit the previous Some and all pointers alias one pointee")
+	n := 0
+	perFn := map[*ssa.Function]int{}
+	for _, f := range allFuncs(c, sp) {
+		loops := loopsOf(f)
+		if len(loops) == 0 {
+			continue
+		}
+		eachInstr(f, func(b *ssa.BasicBlock, _ int, in ssa.Instruction) {
+			call, ok := in.(*ssa.Call)
+			if !ok || call.Call.StaticCallee() == nil || call.Call.StaticCallee().Name() != "unmarshal" || len(call.Call.Args) < 2 {
+				return
+			}
+			var loop map[*ssa.BasicBlock]bool
+			for _, l := range loops {
+				if l[b] && (loop == nil || len(l) < len(loop)) {
+					loop = l // innermost
+				}
+			}
+			if loop == nil {
+				return
+			}
+			n++
+			perFn[f]++
+			// the reflect.Value argument must be produced inside the loop
+			dst := call.Call.Args[1]
+			inside := false
+			for _, v := range phiInputs(dst) {
+				if vi, ok := v.(ssa.Instruction); ok && loop[vi.Block()] {
+					inside = true
+				}
+			}
+			c.ob(rule, fmt.Sprintf("%s:element-destination#%d", relName(f.String()), perFn[f]), call.Pos(), inside,
+				shortFn(f)+" decodes every element of the sequence into ONE destination created before the loop: whatever an element's decoder leaves untouched (a None option, unset struct fields) keeps the previous element's content, and pointer-typed elements alias each other")
+		})
+	}
+	if n == 0 {
+		c.ob(rule, "loops", token.NoPos, false, "no decoding loop calling unmarshal found (anchor changed)")
+	}
+}
+
+// R-TRIMZERO: Uint128.trimBytes drops a byte only after testing that this byte is zero.
+func (c *Ctx) ruleTrimZero() {
+	f := c.fn("pkg/scale", "(*Uint128).trimBytes")
+	if f == nil {
+		return
+	}
+	c.doc("R-TRIMZERO", "Uint128.trimBytes: every re-slice that shortens the 16-byte image is control-dependent on a comparison of a byte of that image with zero (the byte being dropped): a length computed any other way can cut non-zero bytes (e.g. the low half's leading zeros while the high half is non-zero)")
+	n := 0
+	eachInstr(f, func(b *ssa.BasicBlock, _ int, in ssa.Instruction) {
+		sl, ok := in.(*ssa.Slice)
+		if !ok || (sl.Low == nil && sl.High == nil) || sl.X.Type().String() != "[]byte" {
+			return
+		}
+		n++
+		guarded := false
+		for _, fc := range factsAt(b) {
+			subj, op, k, isCmp := cmpWithConst(fc.cond)
+			if !isCmp || k != 0 {
+				continue
+			}
+			o := op
+			if !fc.truth {
+				o = negOp(o)
+			}
+			if o != token.EQL {
+				continue
+			}
+			if u, ok := stripConv(subj).(*ssa.UnOp); ok && u.Op == token.MUL {
+				if _, ok := u.X.(*ssa.IndexAddr); ok {
+					guarded = true
+				}
+			}
+		}
+		c.ob("R-TRIMZERO", fmt.Sprintf("trimBytes:drop#%d", n), sl.Pos(), guarded, "trimBytes shortens the byte image on a path where the dropped byte was not compared with zero: significant bytes can be cut, Bytes()/String()/SCALE encoding then denote a smaller number")
+	})
+	if n == 0 {
+		c.ob("R-TRIMZERO", "trimBytes:drop", f.Pos(), false, "no re-slice found in trimBytes (anchor changed)")
+	}
+}
+
+// R-CLAMP32: a block number is narrowed to 32 bits only by saturating at exactly 2^32-1.
+func (c *Ctx) ruleFromBlockClamp() {
+	f := c.fn(msgDir, "(*FromBlock).Encode")
+	if f == nil {
+		return
+	}
+	c.doc("R-CLAMP32", "FromBlock.Encode: the value converted to uint32 has the interval [0, 2^32-1] exactly — every number below 2^32 is encoded as itself and larger ones saturate at 2^32-1 (a smaller bound rewrites valid block numbers, no bound wraps)")
+	n := 0
+	eachInstr(f, func(_ *ssa.BasicBlock, _ int, in ssa.Instruction) {
+		cv, ok := in.(*ssa.Convert)
+		if !ok || cv.Type().String() != "uint32" {
+			return
+		}
+		n++
+		maxU32 := new(big.Int).SetUint64(1<<32 - 1)
+		// shapes: phi{raw | const K} with the raw edge guarded by raw <= K, or min(raw, K)
+		bound := new(big.Int).SetInt64(-1)
+		identity := false
+		for _, v := range phiInputs(cv.X) {
+			v = stripConv(v)
+			if k, ok := v.(*ssa.Const); ok && k.Value != nil {
+				if kv, ok := constant.Uint64Val(constant.ToInt(k.Value)); ok {
+					if b := new(big.Int).SetUint64(kv); b.Cmp(bound) > 0 {
+						bound = b
+					}
+				}
+				continue
+			}
+			if call, ok := v.(*ssa.Call); ok {
+				if bi, ok := call.Call.Value.(*ssa.Builtin); ok && bi.Name() == "min" {
+					for _, a := range call.Call.Args {
+						if k, ok := stripConv(a).(*ssa.Const); ok && k.Value != nil {
+							if kv, ok := constant.Uint64Val(constant.ToInt(k.Value)); ok {
+								bound = new(big.Int).SetUint64(kv)
+							}
+						} else {
+							identity = true
+						}
+					}
+					continue
+				}
+			}
+			identity = true // the raw value itself
+		}
+		r := newIvlEval().of(cv.X)
+		ok2 := identity && bound.Cmp(maxU32) == 0
+		c.ob("R-CLAMP32", fmt.Sprintf("FromBlock.Encode:to-uint32#%d", n), cv.Pos(), ok2,
+			fmt.Sprintf("the block number is narrowed to uint32 with saturation bound %s (must be %s) and interval [%s, %s]", bound, maxU32, r.lo, r.hi))
+	})
+	if n == 0 {
+		c.ob("R-CLAMP32", "FromBlock.Encode:to-uint32", f.Pos(), false, "no conversion to uint32 found (anchor changed)")
 	}
 }
